@@ -21,8 +21,7 @@ CFG = {
 
 SMALL = {
     'templates': ['m2m', 'o2m_opt', 'o2m_req', 'self', 'o2o_opt', 'o2o_req_cascade', 'mixed_cascade'],
-    'length': {'quick': 3, 'thorough': 4},
-    'budget': {'quick': 12000, 'thorough': 400000},
+    'budget': {'quick': 9000, 'thorough': 500000},
     'monitors': CFG['monitors'],
 }
 
